@@ -30,7 +30,7 @@ ASSUMPTIONS = [
     "a request that gets no verdict at all (exception) is counted here and judged under C03",
 ]
 FLOORS = {"quick": {"evaluations": 8000, "verdicts_checked": 7000, "refused_and_silent": 5000,
-                    "accepted": 200, "distinct": 1500},
+                    "accepted": 120, "distinct": 1500},
           "thorough": {"evaluations": 150000, "verdicts_checked": 120000,
                        "refused_and_silent": 90000, "accepted": 3000, "distinct": 10000}}
 
